@@ -52,11 +52,11 @@ func ZZC17WellFormed() {
 			// the excerpt shows the diagnostic's own line with its number
 			want := ""
 			for _, cl := range allCodeLines {
-				if cl.code == d.Code {
+				if cl.code == d.Code && nd.LineOf(allSrcU, cl.needle) == d.Line {
 					want = cl.needle
 				}
 			}
-			nd.Assert(strings.Contains(d.Msg, " | ") && strings.Contains(d.Msg, "// "+want+"\n"), "excerpt shows the reported source line")
+			nd.Assert(want != "" && strings.Contains(d.Msg, " | ") && strings.Contains(d.Msg, "// "+want+"\n"), "excerpt shows the reported source line")
 			nd.Assert(d.Line == nd.LineOf(allSrcU, want), "diagnostic is on the line of the offending statement")
 		}
 	}
@@ -67,6 +67,10 @@ func ZZC17WellFormed() {
 func c17InlineSrc() string {
 	s := allSrcU
 	for i, cl := range allCodeLines {
+		if cl.needle == "L-LAST" {
+			s = replaceAll(s, "// "+cl.needle, "//«g"+string(rune('a'+i))+"» "+cl.needle)
+			continue
+		}
 		s = replaceAll(s, "// "+cl.needle+"\n", "//«g"+string(rune('a'+i))+"» "+cl.needle+"\n")
 	}
 	return s
